@@ -157,6 +157,17 @@ func memoryProbe(kind string) (delta int64, res string) {
 		n := uint64(1) << 62
 		f := RawFrame{Fin: true, Op: 2, LenOverride: &n, ForceLen64: true, Payload: make([]byte, 1000)}
 		stream = f.Encode()
+	case "final-block-then-24MiB":
+		// a compressed message whose deflate stream ends with a final block after eleven bytes and which then goes on for
+		// 24 MiB (RFC 7692 7.2.3.4 lets a sender do that): the rest has to be read, but not kept
+		flate = true
+		z := newRawDeflater(false, 6).message([]byte("hello world"), true)
+		stream = RawFrame{Fin: false, Rsv1: true, Op: 2, Payload: z}.Encode()
+		chunk := RawFrame{Fin: false, Op: 0, Payload: make([]byte, 4<<20)}.Encode()
+		for i := 0; i < 6; i++ {
+			stream = append(stream, chunk...)
+		}
+		stream = append(stream, RawFrame{Fin: true, Op: 0}.Encode()...)
 	case "bomb-1000x":
 		flate = true
 		d := newRawDeflater(false, 9)
@@ -175,6 +186,12 @@ func memoryProbe(kind string) (delta int64, res string) {
 	runtime.ReadMemStats(&m1)
 	c.CloseNow()
 	res = fmt.Sprintf("read returned %d bytes, err=%v", len(b), err)
+	if kind == "final-block-then-24MiB" {
+		if err != nil || string(b) != "hello world" {
+			return 1 << 40, "message not delivered: " + res
+		}
+		return int64(m1.TotalAlloc) - int64(m0.TotalAlloc), res
+	}
 	if err == nil {
 		return 0, "no-error: " + res
 	}
@@ -283,7 +300,7 @@ func runC08(ctx *runCtx) {
 	}
 	runReadCases(ctx, cases, func(c *ReadCase) string { return "limit" })
 	// memory probes
-	for _, k := range []string{"declared-2^62", "bomb-1000x", "declared-128MiB-unlimited", "declared-128MiB-limit-1GiB", "declared-2^62-unlimited"} {
+	for _, k := range []string{"declared-2^62", "bomb-1000x", "declared-128MiB-unlimited", "declared-128MiB-limit-1GiB", "declared-2^62-unlimited", "final-block-then-24MiB"} {
 		delta, res := memoryProbe(k)
 		ctx.rep.eval("mem/" + k)
 		ctx.rep.note("memory probe %s: allocated %d bytes while receiving (%s)", k, delta, res)
